@@ -58,7 +58,7 @@ NASTY = [
 
 
 # -------------------------------------------------------------------------------- one observed run (worker side)
-def observed_run(root: str, out: str, docformat: str, W: bool, timeout: int = 120) -> Dict[str, Any]:
+def observed_run(roots: List[str], out: str, docformat: str, W: bool, timeout: int = 120) -> Dict[str, Any]:
     """Run the real driver.main in this process under run-time wrappers; returns the event trace and observations."""
     import io
     import contextlib
@@ -116,7 +116,7 @@ def observed_run(root: str, out: str, docformat: str, W: bool, timeout: int = 12
 
     old = signal.signal(signal.SIGALRM, on_alarm)
     signal.alarm(timeout)
-    args = [f"--html-output={out}", f"--docformat={docformat}", "--project-name=proj", "--quiet", "--quiet", root]
+    args = [f"--html-output={out}", f"--docformat={docformat}", "--project-name=proj", "--quiet", "--quiet", *roots]
     if W:
         args.insert(0, "--warnings-as-errors")
     buf = io.StringIO()
@@ -180,16 +180,17 @@ def observed_run(root: str, out: str, docformat: str, W: bool, timeout: int = 12
 def _worker(job: Dict[str, Any]) -> Dict[str, Any]:
     d = Path(tempfile.mkdtemp(prefix="c01-", dir=job["scratch"]))
     try:
-        root = d / "pk"
-        root.mkdir()
+        src = d / "src"
+        src.mkdir()
+        roots = job.get("roots")
         for rel, content in job["files"].items():
-            p = root / rel
+            p = src / rel if roots else src / "pk" / rel
             p.parent.mkdir(parents=True, exist_ok=True)
             if isinstance(content, str):
                 p.write_text(content, encoding="utf-8", errors="surrogateescape")
             else:
                 p.write_bytes(bytes(content))
-        r = observed_run(str(root), str(d / "out"), job["docformat"], job["W"])
+        r = observed_run([str(src / x) for x in (roots or ["pk"])], str(d / "out"), job["docformat"], job["W"])
         r["job"] = {k: v for k, v in job.items() if k != "scratch"}
         return r
     finally:
@@ -321,8 +322,32 @@ def judge(ctx: Ctx, r: Dict[str, Any], origin: str) -> List[str]:
     return bad
 
 
+def ast_depth(src: str) -> int:
+    """Nesting depth of the AST, computed without recursion (0 if the text does not parse)."""
+    import ast
+    try:
+        tree = ast.parse(src)
+    except BaseException:
+        return 0
+    best, stack = 0, [(tree, 1)]
+    while stack:
+        node, d = stack.pop()
+        best = max(best, d)
+        stack.extend((c, d + 1) for c in ast.iter_child_nodes(node))
+    return best
+
+
+def kf_deep_expression(w: Dict[str, Any]) -> bool:
+    """Known finding: a source file that CPython compiles but whose expression nesting exceeds the interpreter's recursion
+    limit for Python-level recursive AST walkers (astutils.Parentage, ast.NodeVisitor...)."""
+    if not w.get("exception", "").startswith("RecursionError"):
+        return False
+    return any(isinstance(t, str) and ast_depth(t) >= 300 for t in w["job"]["files"].values())
+
+
 def run(ctx: Ctx) -> int:
     rng = random.Random(ctx.seed)
+    ctx.register_matcher("expression-nested-deeper-than-recursion-limit", kf_deep_expression)
     # ---- spec -> code
     r = ctx.tlc("Lifecycle", CFG_ENUM.format(maxn=2 if ctx.quick else 3), workers="auto", check=True, coverage=ctx.quick, timeout=1800)
     ctx.extra["design_level"] = {"violated": r.violated}
@@ -363,6 +388,20 @@ def run(ctx: Ctx) -> int:
             stats[f"exit{o['code']}"] += 1
         traces.append({"n": max(o["n"], 1), "W": o["W"], "ev": o["ev"]})
     ctx.extra["random_runs"] = stats
+    # ---- adversarial corpus (hand-written seams), every case under several docformats
+    from .. import adversarial
+    fmts = ["epytext", "restructuredtext", "google"] if ctx.quick else DOCFORMATS
+    ajobs = [{"kind": "adversarial:" + c["name"], "files": c["files"], "roots": c["roots"], "docformat": f, "W": (i % 2 == 1), "id": i}
+             for c in adversarial.cases() for i, f in enumerate(fmts)]
+    aouts = run_jobs(ctx, ajobs)
+    astats = {"runs": 0, "exceptions": 0}
+    for o in aouts:
+        astats["runs"] += 1
+        if judge(ctx, o, o["job"]["kind"]):
+            astats["exceptions"] += 1
+        traces.append({"n": max(o["n"], 1), "W": o["W"], "ev": o["ev"]})
+        routs.append(o)
+    ctx.extra["adversarial_runs"] = astats
     rejected = 0
     for off, batch in enumerate(chunks(traces, 400)):
         f = ctx.scratch / f"lc_{off}.json"
